@@ -19,7 +19,7 @@ from ..rules import call_sites
 from ..mutate import mutate, remove_stmts, replace_stmt, replace_expr, parse_stmt, parse_expr
 from ..model import AnalysisError
 from ..x_scope import own_nodes
-from ..x_flow import check_default_only_for_none
+from ..x_flow import check_default_only_for_none, protected, unique_def
 
 TECHNIQUE = "path-sensitive typestate on the CFG with abstract evaluation of the wait-status predicates and exhaustive folding of the budget test"
 EXPLANATION = (
@@ -61,9 +61,28 @@ def resolve(ck):
     A.np, A.maxr = params[0], params[1]
     nested = ck.repo.nested(fi)
     starters = [n for n in nested if q.find_calls(n.node, "os.fork")]
-    if len(starters) != 1:
+    A.start_bound = {}   # parameters of the starter pre-bound by functools.partial -> expression in fork_processes
+    A.start_call = None  # the name the starter is called by inside fork_processes
+    if len(starters) == 1:
+        A.start = ck.use(starters[0])
+        A.start_call = A.start.name
+    elif not starters:
+        # `start_child = functools.partial(_start_child, children)`: a module-level function as the closure
+        cands = []
+        for nm in q.local_names(fi.node):
+            d = unique_def(fi, nm)
+            if isinstance(d, ast.Call) and q.call_attr(d) == "partial" and d.args and isinstance(d.args[0], ast.Name) and ck.repo.has_func(F, d.args[0].id) and not d.keywords:
+                h = ck.repo.func(F, d.args[0].id)
+                if q.find_calls(h.node, "os.fork"):
+                    cands.append((nm, h, d))
+        if len(cands) != 1:
+            raise AnalysisError("expected exactly one nested function (or functools.partial of a module function) calling os.fork in fork_processes, found %d" % len(cands))
+        nm, h, d = cands[0]
+        A.start = ck.use(h)
+        A.start_call = nm
+        A.start_bound = dict(zip(h.params(), d.args[1:]))
+    else:
         raise AnalysisError("expected exactly one nested function calling os.fork in fork_processes, found %d" % len(starters))
-    A.start = ck.use(starters[0])
     # os.wait() unpacking
     waits = [n for n in fi.cfg.stmt_nodes(lambda n: n.kind == "stmt" and isinstance(n.ast, ast.Assign) and q.is_call(n.ast.value, "os.wait"))]
     if len(waits) != 1 or not (isinstance(waits[0].ast.targets[0], ast.Tuple) and len(waits[0].ast.targets[0].elts) == 2 and all(isinstance(e, ast.Name) for e in waits[0].ast.targets[0].elts)):
@@ -74,7 +93,12 @@ def resolve(ck):
     maps = {p[:-2] for n in q.walk_body(A.start.node) if isinstance(n, ast.Assign) for p in q.assigned_paths(n) if p.endswith("[]")}
     if len(maps) != 1:
         raise AnalysisError("start_child does not record the child in exactly one map (%r)" % sorted(maps))
-    A.children = maps.pop()
+    A.children_in_start = maps.pop()
+    A.children = A.children_in_start
+    if A.children_in_start in A.start_bound:
+        A.children = q.dotted(A.start_bound[A.children_in_start])
+        if A.children is None:
+            raise AnalysisError("the children map bound into the starter is not a local name")
     # supervisor loop = the While containing the wait
     pm = q.parent_map(fi.node)
     A.pm = pm
@@ -83,7 +107,7 @@ def resolve(ck):
         raise AnalysisError("os.wait() is not inside a while loop")
     A.loop = loops[0]
     # start_child call sites
-    A.calls = call_sites(fi, A.start.name)
+    A.calls = call_sites(fi, A.start_call)
     ck.floor("C41.restart-iff-abnormal", len(A.calls), 2, "start_child call sites (initial loop, restart)")
     return A
 
@@ -106,7 +130,7 @@ def supervisor_typestate(ck, A):
     restart_ids = {nid for nid, c in call_nodes.items() if in_loop(c)}
     initial_ids = set(call_nodes) - restart_ids
     if not restart_ids or not initial_ids:
-        raise AnalysisError("could not separate initial start from restart call sites of %s" % A.start.name)
+        raise AnalysisError("could not separate initial start from restart call sites of %s" % A.start_call)
     # pop of the reaped pid
     pops = {}
     for n in cfg.stmt_nodes(lambda n: n.kind == "stmt"):
@@ -127,6 +151,12 @@ def supervisor_typestate(ck, A):
         raise AnalysisError("expected exactly one test against %s in the supervisor loop, found %d" % (A.maxr, len(btests)))
     btest = btests[0]
     counters = q.names_in(btest.ast) - {A.maxr}
+    keyed = [sb for sb in ast.walk(btest.ast) if isinstance(sb, ast.Subscript) and (q.names_in(sb.slice) & {popped_name, A.pid})]
+    if keyed:
+        # positively established: the quantity compared with the budget is looked up per worker / per pid
+        ck.ob("C41.budget", fi, btest.ast, False, "max_restarts bounds the TOTAL number of restarts: the counter compared with it is one number, not an entry per task id / pid (%s)" % q.unparse(keyed[0]),
+              construct="budget-per-entity " + q.normalize_construct(btest.ast, q.local_names(fi.node)))
+        return popped_name
     if len(counters) != 1:
         raise AnalysisError("budget test %s does not compare one counter with %s" % (q.unparse(btest.ast), A.maxr))
     counter = counters.pop()
@@ -308,8 +338,11 @@ def rule_unknown_pid(ck, A):
         for c in q.calls(n.ast):
             if q.is_call(c, A.children + ".pop") or any(isinstance(s, ast.Subscript) and q.dotted(s.value) == A.children and isinstance(s.ctx, (ast.Load, ast.Del)) for s in ast.walk(n.ast)):
                 cnt += 1
-                ck.ob("C41.unknown-pid", fi, n.ast, holds(facts[n.id], "%s in %s" % (A.pid, A.children), True),
-                      "pids that are not our workers are skipped: the lookup of the reaped pid is guarded by `%s in %s`" % (A.pid, A.children))
+                hd = protected(A.pm, c, "KeyError") if q.is_call(c, A.children + ".pop") else None
+                skips = isinstance(hd, ast.ExceptHandler) and bool(hd.body) and isinstance(hd.body[-1], (ast.Continue, ast.Return, ast.Raise)) and not any(
+                    isinstance(x, ast.Call) and q.call_attr(x) == A.start_call for st_ in hd.body for x in ast.walk(st_))
+                ck.ob("C41.unknown-pid", fi, n.ast, holds(facts[n.id], "%s in %s" % (A.pid, A.children), True) or skips,
+                      "pids that are not our workers are skipped: the lookup of the reaped pid is guarded by `%s in %s` (or its KeyError leaves the iteration)" % (A.pid, A.children))
                 break
     ck.floor("C41.unknown-pid", cnt, 1, "lookups of the reaped pid")
     # the loop runs while there are children; success exit only when none is left
@@ -354,7 +387,7 @@ def rule_unknown_pid(ck, A):
 
 def rule_start_child(ck, A):
     sc = A.start
-    params = [p for p in sc.params()]
+    params = [p for p in sc.params() if p not in A.start_bound]
     if len(params) != 1:
         raise AnalysisError("start_child does not take exactly the task id")
     idp = params[0]
@@ -378,7 +411,7 @@ def rule_start_child(ck, A):
             raise AnalysisError("start_child neither assigns %s nor declares it global, but calls %s: publication through a helper is not followed" % (g, q.unparse(others[0].func)))
     ck.ob("C41.task-id", sc, sc.node, declared, "start_child declares `global %s` (otherwise the assignment is a dead local and task_id() stays None in the worker)" % g, construct="global " + g)
     is_pub = lambda n: n.kind == "stmt" and isinstance(n.ast, ast.Assign) and g in q.assigned_paths(n.ast) and q.dotted(n.ast.value) == idp
-    is_rec = lambda n: n.kind == "stmt" and isinstance(n.ast, ast.Assign) and (A.children + "[]") in q.assigned_paths(n.ast)
+    is_rec = lambda n: n.kind == "stmt" and isinstance(n.ast, ast.Assign) and (A.children_in_start + "[]") in q.assigned_paths(n.ast)
 
     def tr(n, v):
         pub, recd = v
@@ -517,6 +550,7 @@ def _count_only_signals(root):
 
 
 MUTANTS = [
+    ("seeded C41-adv4: restarts counted per task id", _m(lambda root: _per_id_budget(root)), "C41.budget"),
     ("seeded C41-adv1: budget default applied by truthiness (0 becomes 100)", _m(replace_stmt(lambda st: isinstance(st, ast.If) and _src(st.test) == "max_restarts is None", lambda st: [parse_stmt("max_restarts = max_restarts or 100")])), "C41.defaults"),
     ("budget default applied with `if not max_restarts`", _m(replace_expr(lambda n: isinstance(n, ast.Compare) and _src(n) == "max_restarts is None", lambda n: parse_expr("not max_restarts"))), "C41.defaults"),
     ("worker count clamped to at least 2", _m(replace_expr(lambda n: isinstance(n, ast.Compare) and _src(n) == "num_processes <= 0", lambda n: parse_expr("num_processes <= 1"))), "C41.defaults"),
@@ -545,3 +579,20 @@ def _while_len(root):
     lp = _sup_loop(root)
     lp.test = parse_expr("len(children) > 1")
     return True
+
+
+def _per_id_budget(root):
+    lp = _sup_loop(root)
+    done = 0
+    for i, st in enumerate(root.body):
+        if isinstance(st, ast.Assign) and _src(st) == "num_restarts = 0":
+            root.body[i] = parse_stmt("num_restarts = {}")
+            done += 1
+    for i, st in enumerate(lp.body):
+        if isinstance(st, ast.AugAssign) and _src(st) == "num_restarts += 1":
+            lp.body[i] = parse_stmt("num_restarts[id] = num_restarts.get(id, 0) + 1")
+            done += 1
+        elif isinstance(st, ast.If) and "max_restarts" in _src(st.test):
+            st.test = parse_expr("num_restarts[id] > max_restarts")
+            done += 1
+    return done == 3
